@@ -496,9 +496,15 @@ def build_world(sched, cpu_count=2, psutil=True, environ=None):
     S.annotate_kill = _make_kill_annotator(w)
     S.extra_state = lambda: tuple(
         (h["pending"].raw_len(), h["running"].raw_len(), h["processes"].raw_len(),
-         h["flags"].shutdown, h["flags"].broken is not None, h["flags"].kill_workers)
+         rawflag(h["flags"], "shutdown"), rawflag(h["flags"], "broken") is not None,
+         rawflag(h["flags"], "kill_workers"))
         for h in w.execs)
     return w
+
+
+def rawflag(flags, name):
+    """Read an _ExecutorFlags attribute without creating a decision point (harness use)."""
+    return flags.__dict__.get("_tf_" + name, flags.__dict__.get(name))
 
 
 def _announce_ranges(pe):
@@ -539,13 +545,49 @@ def _make_kill_annotator(w):
                     break
                 fr = fr.f_back
         proc.info["kill_phase"] = phase
-        execs = [(h["flags"].shutdown, h["flags"].broken is not None) for h in w.execs]
+        execs = [(rawflag(h["flags"], "shutdown"), rawflag(h["flags"], "broken") is not None)
+                 for h in w.execs]
         return dict(phase=phase, execs=execs, t=w.S.now)
     return annotate
 
 
+def _traced_flags(w):
+    """_ExecutorFlags with a decision point before every read/write of its plain attributes
+    (they are read without the lock by the manager thread)."""
+    pe = w.pe
+    Base = pe._ExecutorFlags
+
+    def _p(op):
+        s = K.S
+        if s is not None and s.active and not s.aborting and s.cur is not None:
+            if s.cur.killed:
+                raise K.SimKilled()
+            s.point(label=op)
+
+    def prop(name):
+        key = "_tf_" + name
+
+        def get(self):
+            _p("flags.get:" + name)
+            return self.__dict__.get(key)
+
+        def set_(self, v):
+            _p("flags.set:" + name)
+            self.__dict__[key] = v
+        return property(get, set_)
+
+    class TracedFlags(Base):
+        shutdown = prop("shutdown")
+        broken = prop("broken")
+        kill_workers = prop("kill_workers")
+    TracedFlags.__name__ = Base.__name__
+    TracedFlags.__qualname__ = Base.__qualname__
+    pe._ExecutorFlags = TracedFlags
+
+
 def _trace_containers(w):
     pe = w.pe
+    _traced_flags(w)
     orig = pe.ProcessPoolExecutor._setup_queues
 
     def _setup_queues(self, *a, **k):
